@@ -327,6 +327,30 @@ def run_case(case):
                     sr.close()
                 except Exception as e:
                     res.exception(key + ":exception", e, lab)
+        # ---- companions carrying different UUIDs in their names (as datasets registered on a server do)
+        import uuid
+        w = d / "uuid"
+        u1, u2, u3 = (str(uuid.UUID(bytes=rng.bytes(16), version=4)) for _ in range(3))
+        b = G.write(rec, w, name=f"run_g0_t0.imec0.ap.{u1}")
+        meta_u = w / f"run_g0_t0.imec0.ap.{u2}.meta"
+        b.with_suffix(".meta").rename(meta_u)
+        for form in ("bin", "cbin"):
+            lab = f"{kind}: UUID-named companions, Reader({form})"
+            try:
+                if form == "cbin":
+                    sr = spikeglx.Reader(b)
+                    sr.compress_file(keep_original=False, chunk_duration=0.003)
+                    sr.close()
+                    ch_u = w / f"run_g0_t0.imec0.ap.{u3}.ch"
+                    b.with_suffix(".ch").rename(ch_u)
+                path = b if form == "bin" else b.with_suffix(".cbin")
+                sr = spikeglx.Reader(path)
+                res.count("entry_paths")
+                res.check(sr.file_meta_data == meta_u, "entry:uuid-meta", f"{lab}: metadata companion resolved to {sr.file_meta_data}")
+                res.check(sr.shape == (ns, rec.nc) and np.allclose(sr[:, :], cal, rtol=2.0 ** -22, atol=0), "entry:uuid-values", f"{lab}: resolves to different data")
+                sr.close()
+            except Exception as e:
+                res.exception("entry:uuid-exception", e, lab)
         nt = 1
         res.sig = f"entry-{kind}"
     res.nontrivial = nt > 0
